@@ -36,6 +36,8 @@ LEAN_TARGETS = [
     # source tie (bodies of get_fragment / nelectrons / nuclear_repulsion_energy / molecular_formula_from_symbols regenerated
     # from the source as AST terms, evaluator, equality with the hand models)
     "QcelVerif.Model.FragmentsAst", "QcelVerif.Gen.FragmentsSrc", "QcelVerif.Model.FragmentsSrc", "QcelVerif.Props.C15Src",
+    # source tie, order-preserving path / argument forms / refusals (loop invariants of the generated `else:` branch)
+    "QcelVerif.Lemmas.FragmentsSrcOrdered", "QcelVerif.Props.C15SrcOrdered",
 ]
 DRIVER = "QcelVerif/Driver/C15.lean"
 
@@ -280,8 +282,8 @@ THEOREMS = [
     ("QcelVerif.FragSrc.gf_pre", "source-derived get_fragment, list arguments without a common fragment number: the statements before `if group_fragments:` leave the empty accumulators, and the body continues with the branch chosen by group_fragments followed by the constructor_dict assignments"),
     ("QcelVerif.FragSrc.srcExtract_grouped_run", "source-derived get_fragment, group_fragments=True, ANY molecule and any lists of valid fragment numbers (no common element, not both empty), any orient: the generated body runs to the constructor call and constructor_dict holds exactly: symbols = masses = geometry rows = atoms of the real fragments then of the ghost fragments in the order requested, flags true.. false.., fresh index ranges, real fragments' charges/multiplicities then (0,1) per ghost, totals = sum of the real charges / high-spin sum"),
     ("QcelVerif.FragSrc.srcExtract_grouped_eq_model", "under the same hypotheses the hand model extractGrouped succeeds and returns the same record (the three per-atom index lists of the source-derived body agree and are the rows of the model's atom list): the source-derived grouped path equals Model/Fragments.lean"),
-    ("QcelVerif.FragSrc.srcExtract_ordered_partial", "PARTIAL (tests by kernel evaluation on a 5-atom, 3-fragment molecule with a ghost atom): the generated order-preserving path (at2fr loop, atom loop, ghost marking `ifr in real`, at2at remap, fragment loop) returns the expected record, agrees with the model's extractOrdered on three selections and refuses an overlap; the universal statement is not proved (three-way differential instead)"),
-    ("QcelVerif.FragSrc.srcExtract_args_partial", "PARTIAL (tests by kernel evaluation): `real` given as an int and `ghost` as None / an int are normalised to lists by the generated body (same record as with list arguments), and the grouped record is groupedCtor"),
+    ("QcelVerif.FragSrc.srcExtract_ordered_partial", "PARTIAL (tests by kernel evaluation on a 5-atom, 3-fragment molecule with a ghost atom): the generated order-preserving path (at2fr loop, atom loop, ghost marking `ifr in real`, at2at remap, fragment loop) returns the expected record, agrees with the model's extractOrdered on three selections and refuses an overlap; kept as a test — the universal statement is now srcExtract_ordered_eq_model (Props/C15SrcOrdered.lean)"),
+    ("QcelVerif.FragSrc.srcExtract_args_partial", "PARTIAL (tests by kernel evaluation): `real` given as an int and `ghost` as None / an int are normalised to lists by the generated body (same record as with list arguments), and the grouped record is groupedCtor; kept as a test — the universal statement is now gfRun_args (Props/C15SrcOrdered.lean)"),
     ("QcelVerif.FragSrc.srcNelectrons_eq", "source-derived nelectrons() = the model nelectrons for EVERY molecule: sum(Z*real) - molecular_charge"),
     ("QcelVerif.FragSrc.srcNelectronsFrag_eq", "source-derived nelectrons(k) = the model nelectronsFrag for every molecule and every k that has a fragment and a fragment charge (the enumerate / `iat in fragments[k]` comprehension)"),
     ("QcelVerif.FragSrc.srcNelectrons_fragment", "nelectrons_fragment restated over the source-derived body: duplicate-free fragment -> sum of Z over its atoms flagged real - fragment charge"),
@@ -296,11 +298,22 @@ THEOREMS = [
     ("QcelVerif.FragSrc.srcElementOrder_eq", "the generated rearrangement run on any key list = the model's elementOrder (alphabetical: unchanged; hill: hillOrder C H), never raises"),
     ("QcelVerif.FragSrc.srcFromSymbols_eq", "source-derived molecular_formula_from_symbols = the model fromSymbols for EVERY symbol list and both orders, character for character"),
     ("QcelVerif.FragSrc.order_formula_of_formula_src", "order_formula_of_formula restated over the source-derived writer: re-ordering what it writes in convention o into o' gives what it writes in o' (WFSym symbols)"),
+    ("QcelVerif.FragSrc.g_ordered", "source-derived get_fragment, the whole `else:` branch of `if group_fragments:` (three loops + assert) on ANY molecule whose fragment lists name existing atoms with a charge and a multiplicity per fragment, ANY real/ghost lists: at2fr = the model's at2fr (last fragment listing an atom wins), rows/symbols/masses = the model's keptAtoms in original order, flags = `ifr in real`, at2at = the model's at2at, one remapped index list + (fc,fm) or (0,1) per selected fragment in original order"),
+    ("QcelVerif.FragSrc.srcExtract_ordered_run", "source-derived get_fragment, group_fragments=False, ANY such molecule in which every atom of a selected fragment is kept (true when no atom is in two fragments), ANY real/ghost lists without a common element (any order, repeats, numbers outside the molecule), any orient: the generated body raises at np.vstack([]) when nothing is selected and otherwise reaches the constructor call with exactly the record orderedCtor (kept atoms in ORIGINAL order, ghost fragments flagged ghost with (0,1), real fragments keep (fc,fm), no totals passed)"),
+    ("QcelVerif.FragSrc.srcExtract_ordered_eq_model", "replaces srcExtract_ordered_partial at full strength: for ALL molecules with fragment lists naming existing atoms, no atom in two fragments, a charge and a multiplicity per fragment, and ALL real/ghost lists without a common element, the record the source-derived order-preserving path hands to the constructor equals Model/Fragments.lean's extract ... false (extractOrdered + the empty-selection refusal), and it raises exactly when the model refuses"),
+    ("QcelVerif.FragSrc.gfRun_args", "replaces srcExtract_args_partial at full strength: for EVERY molecule, `real` an int or any list, `ghost` an int, None or any list, any orient / group_fragments, the generated body ends in the same state (or raises alike) as on the normalised lists int -> [int], None -> []"),
+    ("QcelVerif.FragSrc.srcExtract_args", "corollary: the constructor record read after a call with int / None argument forms is the record of srcExtract on the normalised lists"),
+    ("QcelVerif.FragSrc.gfRun_real_none_refused", "refusal: real=None makes the generated body raise at `set(real)` for every molecule and every form of ghost (TypeError in Python; the evaluator says `raises`)"),
+    ("QcelVerif.FragSrc.gf_raise_class", "[regenerated from molecule.py, rfl] the only explicit `raise` of get_fragment is the overlap refusal (the tag the refusal theorem reaches) and the source names TypeError there; nelectrons / nuclear_repulsion_energy contain no raise"),
+    ("QcelVerif.FragSrc.srcExtract_overlap_refused", "refusal, both paths, every molecule, any orient: a fragment number in both real and ghost -> the generated body reaches the `raise` of the overlap test (line 668) and the model answers `overlap`"),
+    ("QcelVerif.FragSrc.srcExtract_grouped_oob_refused", "refusal, grouped path, every molecule, any orient: a number in `real` that names no fragment makes the generated body raise at `self.fragments[frag]` (never silently skipped) and the model answers `index`"),
+    ("QcelVerif.FragSrc.srcExtract_grouped_ghost_oob_refused", "refusal, grouped path, every molecule, any orient: every number in `real` names a fragment and a number in `ghost` names none -> the real blocks and the totals are computed, the ghost loop raises at `self.fragments[frag]`, and the model answers `index`"),
+    ("QcelVerif.FragSrc.srcOrdered_headline", "headline clauses for group_fragments=False restated at the constructor call of the generated body (contiguous parent = every validated molecule, disjoint real/ghost): symbols = masses = geometry rows = the parent's atoms whose fragment is selected, original order, each once, non-empty; flagged real iff its fragment is in `real`; index lists concatenate to 0..n'-1 and are the at2at images of the selected fragments in original order; (fc,fm) kept for real, (0,1) for ghost fragments; no totals passed"),
 ]
 TRUSTED_BASE = [
     "Lean 4.33 kernel; axioms per theorem audited on every run (subset of propext, Classical.choice, Quot.sound)",
     "hand-written models Model/Fragments.lean (get_fragment both paths, defaults, nelectrons() and nelectrons(ifr), NRE pair sum for the molecule and for one fragment) and Model/Formula.lean (render, title, dict accumulation; its two regex cuts are PROVED equal to the source's patterns run by the generic engine, see below), tied by differential correspondence on the generated stream; get_fragment(orient=True) results are compared with the model's index lists directly as well (geometry up to the rigid motion: pair distances within 1e-6)",
-    "SOURCE TIE (new): harness/c15_src.py reads models/molecule.py (Molecule.get_fragment / nelectrons / nuclear_repulsion_energy, located by name) and molutil/molecular_formula.py (molecular_formula_from_symbols) by `ast` on every run and re-encodes their bodies statement by statement as terms of the AST of Model/FragmentsAst.lean (Gen/FragmentsSrc.lean; any construct outside the list in that file raises). REGENERATED + PROVED equal to the hand model for all inputs: nelectrons() and nelectrons(k); the NRE double loop (any field, abstract distance; atoms walked must have a Zeff entry); molecular_formula_from_symbols (all symbol lists, both orders); get_fragment's group_fragments=True path for every molecule and all lists of valid fragment numbers (fragment number has a fragment with existing atoms, a charge and a multiplicity) without overlap, not both empty. REGENERATED + DIFFERENTIAL ONLY (three-way driver lines sgf/sne/snre/sfs on every generated case, plus kernel-evaluated tests): get_fragment's group_fragments=False path, the int / None argument forms, and every error outcome (IndexError, overlap TypeError, np.vstack([]) ValueError: the evaluator only says `raises`). Trusted in the translator: the re-encoding itself (ast -> term, slot numbering), `self.symbols/masses/geometry[i]` read as the row reference i with IndexError outside 0..n-1, bool as 0/1, `float()/int()/cast()` of integers as identity, negative indices out of scope, the sub-molecule's `name` statements skipped, `return Molecule(orient=orient, **constructor_dict)` checked for shape only (the constructor is Model/Fragments.construct = C05's vfc), and for the formula function the head (order.lower(), supported-order test, Counter of title(), sorted keys) compared with a fixed template; the evaluator's semantics (Model/FragmentsAst.lean) is hand-written Lean, tied to CPython by the three-way lines",
+    "SOURCE TIE (new): harness/c15_src.py reads models/molecule.py (Molecule.get_fragment / nelectrons / nuclear_repulsion_energy, located by name) and molutil/molecular_formula.py (molecular_formula_from_symbols) by `ast` on every run and re-encodes their bodies statement by statement as terms of the AST of Model/FragmentsAst.lean (Gen/FragmentsSrc.lean; any construct outside the list in that file raises). REGENERATED + PROVED equal to the hand model for all inputs: nelectrons() and nelectrons(k); the NRE double loop (any field, abstract distance; atoms walked must have a Zeff entry); molecular_formula_from_symbols (all symbol lists, both orders); get_fragment's group_fragments=True path for every molecule and all lists of valid fragment numbers (fragment number has a fragment with existing atoms, a charge and a multiplicity) without overlap, not both empty; get_fragment's group_fragments=False path (Props/C15SrcOrdered.lean, loop invariants in Lemmas/FragmentsSrcOrdered.lean) for every molecule whose fragment lists name existing atoms, no atom in two fragments, a charge and a multiplicity per fragment, and ALL real/ghost lists without a common element, including the empty-selection refusal; the int / None argument forms (all inputs); the refusals overlap (both paths), real=None, and a number in `real` or in `ghost` naming no fragment (grouped path; on the order-preserving path such a number is ignored by source and model alike, covered by the equality theorem) — as `the generated body raises here and the model reports overlap / index / empty`. The class of the one explicit `raise` (overlap: TypeError) is regenerated from the source and pinned (gf_raise_class). STILL DIFFERENTIAL ONLY (three-way driver lines sgf/sne/snre/sfs on every generated case): the exception CLASS of the implicit refusals (IndexError of an index outside a list, ValueError of np.vstack([]), TypeError of set(None) are Python's semantics, not statements of the source; the evaluator says `raises` without a class and the classes are compared between CPython and the hand model only), molecules with an atom in two fragments or fewer charges than fragments (not validated molecules). Trusted in the translator: the re-encoding itself (ast -> term, slot numbering), `self.symbols/masses/geometry[i]` read as the row reference i with IndexError outside 0..n-1, bool as 0/1, `float()/int()/cast()` of integers as identity, negative indices out of scope, the sub-molecule's `name` statements skipped, `return Molecule(orient=orient, **constructor_dict)` checked for shape only (the constructor is Model/Fragments.construct = C05's vfc), and for the formula function the head (order.lower(), supported-order test, Counter of title(), sorted keys) compared with a fixed template; the evaluator's semantics (Model/FragmentsAst.lean) is hand-written Lean, tied to CPython by the three-way lines",
     "the constructor's charge/multiplicity validation is C05's model ChgMult.vfc (its own correspondence is C05's)",
     "symbols/masses/geometry are one per-atom payload list in the model (the code indexes the three arrays with the same index); the harness compares each array separately against the model's index list",
     "NRE theorems are over an arbitrary field and an abstract distance function; the driver evaluates the pair sum exactly over Rat on the distances numpy computed; float rounding of the implementation is bounded by a stated tolerance",
@@ -313,18 +326,18 @@ TRUSTED_BASE = [
 ]
 ASSUMPTIONS = [
     "integer fragment charges and multiplicities (scope of C05's model)",
-    "parents are validated molecules (fragments contiguous and ascending); real/ghost are disjoint lists of distinct valid fragment numbers, not both empty (overlap is generated as an error case for the correspondence only)",
+    "parents are validated molecules (fragments contiguous and ascending); real/ghost are disjoint lists of distinct valid fragment numbers, not both empty (overlap, and one request per parent naming a fragment number that does not exist — refused with IndexError on the grouped path, silently skipped on the order-preserving path of the unchanged tree —, are generated for the correspondence only: the oracle demands nothing of them)",
     "the orienting rotation itself (orient=True) is not modelled here (C16): the oriented result's symbols / masses / real / fragments / fragment charges / multiplicities / totals / electron counts are compared with the model's index lists exactly and its geometry with the parent's rows at the model's indices up to a rigid motion (pair distances within 1e-6), for both group_fragments values on every case; the oracle additionally demands every non-geometric field (all serialised fields except geometry, and the derived per-atom attributes) identical to the orient=False result, NRE and electron counts unchanged",
     "order_molecular_formula on a formula with a count of four or more digits is not sent through the whole function (it materialises `count` copies of the symbol: 'C9999999999' exhausts memory) — such strings go through the cut/spl regex lines only",
     "ASCII symbols for the formula functions; the string-level theorems assume title-cased symbols of the shape [A-Z][a-z]* (discharged for the whole periodic table; any-case words of ASCII letters reduce to it); a key containing a digit, a second capital or a letter after a non-letter is outside them (counter-example in the Lean file)",
     "NRE additivity over fragments is false (nre_not_additive) and is not part of the property",
-    "source-derived procedures: integer-valued Python scalars only (bool = 0/1), no negative indices; the universal get_fragment theorem is about list arguments and the grouped path; orientation and the constructor are outside the generated body",
+    "source-derived procedures: integer-valued Python scalars only (bool = 0/1), no negative indices; the universal get_fragment theorems cover both paths and the int / None / list argument forms; the order-preserving path theorem assumes fragment lists naming existing atoms, no atom in two fragments and a charge and a multiplicity per fragment (every validated molecule); exception classes, orientation and the constructor are outside the generated body",
 ]
 RULE = (
     "parents: random validated molecules, 1-5 fragments of 1-3 atoms, ghost atoms / whole ghost fragments, charged and open-shell fragments, "
     "isotopes, optional explicit totals; for parents with <=4 fragments EVERY ordered pair (real list, ghost list) of disjoint fragment subsets in every order "
     "(5 fragments: sampled) x group_fragments on/off x orient on/off; a case is distinct by (parent hash, real, ghost, group, orient) and non-trivial when >=2 "
-    "fragments are involved, or a ghost/charged/open-shell fragment is selected, or the outcome is an error. Formula: every multiset of size <=6 over a "
+    "fragments are involved, or a ghost/charged/open-shell fragment is selected, or the outcome is an error; per parent one overlapping request and one request (both group_fragments values) with a fragment number outside the molecule among valid ones, in `real` or `ghost` (correspondence only). Formula: every multiset of size <=6 over a "
     "12-symbol alphabet (C H Ca Cl He Hf B Br N O Zn Ar; shuffled, random case) x both orders, + every symbol of qcelemental.periodictable.E alone with counts 1, 2 and a random "
     "two/three-digit count and in random multisets over the whole table, + random formula strings for order_molecular_formula + near-miss strings (lower-case first letter, digit first, empty, 'CH3(OH)', "
     "blanks, signs, leading zeros, control characters); every order_molecular_formula call goes three ways (CPython, hand model, regex-engine model); every distinct formula string seen + the near misses + random "
@@ -343,7 +356,7 @@ LEVEL_TEXT = (
     "str.title/str(int)/int(str), pydantic construction, orientation and float arithmetic are differential only (partial). "
     "NEW: the bodies of get_fragment, nelectrons, nuclear_repulsion_energy and molecular_formula_from_symbols are regenerated from the source on every run as terms of a small statement/expression AST and run by a Lean evaluator; "
     "proved equal to the hand model for ALL inputs: nelectrons (molecule and fragment), the NRE double loop (any field, abstract distance), molecular_formula_from_symbols, and get_fragment's group_fragments=True path "
-    "(valid, non-overlapping requests); headline theorems restated over them. The group_fragments=False path, the int/None argument forms and all error outcomes of the generated body are tied three-way by differential lines and kernel-evaluated tests only (partial)."
+    "(valid, non-overlapping requests) AND its group_fragments=False path (all validated-shape molecules, all non-overlapping real/ghost lists, by loop invariants of the three generated loops), the int/None argument forms (all inputs), and the refusals overlap / real=None / out-of-range number in `real` or `ghost` / empty selection as `the generated body raises`; headline theorems restated over them for both paths. The class of the explicit overlap `raise` (TypeError) is regenerated and pinned; the exception CLASSES of the implicit refusals (IndexError / ValueError) are tied by differential lines between CPython and the hand model only (partial)."
 )
 TECHNIQUE = "Lean 4 proof of list/partition/sum theorems about a hand model + regexes regenerated from the source and proved equal to the hand cuts through a generic regex engine + method bodies regenerated from the source as AST terms, evaluator, loop-invariant proofs of equality with the hand model + behavioural correspondence (three-way) + independent oracle"
 
@@ -674,15 +687,17 @@ def check_extraction(ctx, out: Outcome, pend: Pending, spec, parent, P, R, G, gr
     out.count("nfr:%d" % nfr)
     out.count("sel:r%d,g%d" % (len(R), len(G)))
     out.count("group:%s" % group)
-    sel_ghost_parent = any(not all(P["real"][i] for i in P["fragments"][k]) for k in R)
+    oob = any(k >= nfr for k in list(R) + list(G))  # a number naming no fragment: outside the quantifier, correspondence only
+    Rv = [k for k in R if k < nfr]
+    sel_ghost_parent = any(not all(P["real"][i] for i in P["fragments"][k]) for k in Rv)
     if sel_ghost_parent:
         out.count("real_selection_contains_parent_ghost_atoms")
     if G and R and not group and min(G) < max(R):
         out.count("ungrouped_ghost_before_real")
     if R != sorted(R) or G != sorted(G):
         out.count("selection_not_ascending")
-    charged = any(P["fc"][k] != 0 for k in R)
-    openshell = any(P["fm"][k] != 1 for k in R)
+    charged = any(P["fc"][k] != 0 for k in Rv)
+    openshell = any(P["fm"][k] != 1 for k in Rv)
     if len(R) + len(G) >= 2 or G or charged or openshell or res[0] == "err":
         out.nontrivial((parent.get_hash()[:10], tuple(R), tuple(G), group))
     line = "gf|{}|{}|{}|{}".format("1" if group else "0", ",".join(map(str, R)), ",".join(map(str, G)), mol_fields(parent))
@@ -697,7 +712,7 @@ def check_extraction(ctx, out: Outcome, pend: Pending, spec, parent, P, R, G, gr
     if res[0] == "err":
         out.count("outcome:err:" + res[1])
         pend.add(line, "gf_err", res[1], case)
-        if overlap:
+        if overlap or oob:
             return  # outside the quantifier; correspondence only
         if not (res[1] == "Validation" and expected_unghost_failure(P, R)):
             viol("oracle:refused", "a well-formed request for real/ghost fragments was refused with " + res[1], observed=res[1])
@@ -709,6 +724,11 @@ def check_extraction(ctx, out: Outcome, pend: Pending, spec, parent, P, R, G, gr
     pend.add(line, "gf_ok", (atoms_c, rest_c, [atom_key(s, m, g) for s, m, g in zip(P["symbols"], P["masses"], P["geometry"])]), case)
     if overlap:
         viol("oracle:overlap_accepted", "overlapping real and ghost lists were accepted")
+        return
+    if oob:
+        # the order-preserving path of the unchanged tree skips such a number silently (`ifr in real` is never asked of a fragment
+        # that does not exist); outside the quantifier: the model must agree (gf / sgf lines above), the oracle demands nothing
+        out.count("out_of_range_number_accepted:group=%s" % group)
         return
     if expected_unghost_failure(P, R):
         viol("oracle:inconsistent_accepted", "kept charge/multiplicity do not fit the electron count of the now-real fragment, yet a molecule was built")
@@ -1338,6 +1358,17 @@ def run_parent(ctx, out, pend, spec, pairs_limit=None, orient_every=1):
     if nfr >= 1:
         k = ctx.rng.randrange(nfr)
         check_extraction(ctx, out, pend, spec, parent, P, [k], [k], ctx.rng.random() < 0.5, heavy=False)
+        # a fragment number that names no fragment, among valid ones, in `real` or in `ghost`: correspondence of the refusal
+        # (grouped path: IndexError at self.fragments[frag]) and of the silent skip (order-preserving path), both paths
+        bad = nfr + ctx.rng.randrange(3)
+        keep = [j for j in range(nfr) if ctx.rng.random() < 0.6]
+        ctx.rng.shuffle(keep)
+        cut = ctx.rng.randrange(len(keep) + 1)
+        R2, G2 = keep[:cut], keep[cut:]
+        tgt = R2 if ctx.rng.random() < 0.7 else G2
+        tgt.insert(ctx.rng.randrange(len(tgt) + 1), bad)
+        for group in (True, False):
+            check_extraction(ctx, out, pend, spec, parent, P, list(R2), list(G2), group, heavy=False)
 
 
 def run(ctx: Ctx) -> Outcome:
